@@ -1,6 +1,7 @@
 \* C20: all negotiation paths x truncation x chunking for the three server profiles + UDP headers.
 \* Full = FALSE: greeting classes with the default request and request classes with the default greeting;
 \* Full = TRUE: their full product.  DLens: 7 stands for the class "mid" (3..254, swept by the driver).
+\* CutChunkings: quick tier drops "msg" for truncated messages (thorough: all four).
 \* Greedy = {} and UdpMinLen = 7 describe a conforming tree; Socks5_dev.cfg sets the deviations.
 CONSTANTS
   Emit = @@EMIT@@
@@ -10,6 +11,7 @@ CONSTANTS
   Full = @@FULL@@
   DLens = {0, 1, 2, 7, 255}
   Chunkings = {"all", "msg", "bytes", "split"}
+  CutChunkings = @@CUTCH@@
   WithUdp = TRUE
 INIT Init
 NEXT Next
